@@ -608,6 +608,10 @@ func (fr *Frame) convert(x *ssa.Convert, st *State, reach string) Val {
 	v := fr.val(x.X, st)
 	from, to := x.X.Type(), x.Type()
 	vt := c.termOf(v)
+	if isUnsafePointer(from) || isUnsafePointer(to) {
+		fr.oblige("subset", "conversion through unsafe.Pointer "+c.eng.srcText(x.Pos(), "call"), reach, "false", x.Pos())
+		return fr.havocVal(to, "unsafe")
+	}
 	switch {
 	case isInteger(from) && isInteger(to):
 		flo, fhi, ok1 := intRange(from)
@@ -885,4 +889,9 @@ func (fr *Frame) next(x *ssa.Next, st *State, reach string) Val {
 	c.smt.assume(implies(okT, c.typeFacts(it.ValT, vv.Term)), "")
 	c.closedHeap(st, it.ValT, vv.Term, 0)
 	return Val{T: x.Type(), Tuple: []Val{{T: types.Typ[types.Bool], Term: okT}, kv, vv}}
+}
+
+func isUnsafePointer(t types.Type) bool {
+	b, ok := t.Underlying().(*types.Basic)
+	return ok && b.Kind() == types.UnsafePointer
 }
